@@ -214,6 +214,30 @@ def run(prog, R):
             elif built_im:
                 badim.append("to_imaginary_texpr without an `im` unit test: " + show(r)[:60])
         R.ob("C10.4-imaginary-constructor", "every `im` literal path (int/float, plain/negated) builds the value with to_imaginary_texpr", nim >= 4 and not badim and "Imaginary" in TU, ex_.at, f"{nim} imaginary-literal paths; deviating {badim[:2]}")
+    # floats: the value is what std parses from the underscore-stripped spelling, as a whole (no own arithmetic on
+    # significand / exponent: that would round twice)
+    fv = prog.body(TE + "FloatNumber::value")
+    if fv:
+        ps_ = [p for p in SymExec(prog, fv).paths() if "__diverged__" not in p.env]
+        rets = {show(deep_strip(p.env.get(0))) for p in ps_}
+        arith = [st_["rv"]["op"] for bi, si, st_ in fv.stmts_with_pos() if st_["k"] == "assign" and st_["rv"]["k"] == "binop" and ("f64" in str(st_["rv"].get("ty", "")) or st_["rv"]["op"] in ("Mul", "Div"))]
+        cals = sorted(set((fv.callee_of(t) or "").split("::")[-1] for _, t in fv.calls()))
+        okf = len(ps_) == 1 and all(r.startswith("ok(parse(") and "replace(" in r and "split_into_parts(self)" in r for r in rets) and not arith and not any(c in cals for c in ("powi", "powf", "exp", "mul_add"))
+        R.ob("C10.4-float-digit-string", "FloatNumber::value == parse::<f64>(text-without-underscores).ok()", okf, fv.at, f"value {sorted(rets)[:1]}; calls {cals}; float arithmetic {arith}")
+    else:
+        R.ob("ANCHOR", "FloatNumber::value", False)
+    # no unchecked narrowing `as` cast on a literal's value in the translator (shared with C09.2)
+    order = {"u8": 8, "u16": 16, "u32": 32, "u64": 64, "usize": 64, "u128": 128, "i8": 8, "i16": 16, "i32": 32, "i64": 64, "isize": 64, "i128": 128}
+    narrow = []
+    for b_ in prog.by_crate["oq3_semantics"]:
+        if not b_.npath.startswith(S2S):
+            continue
+        for bi, si, st_ in b_.stmts_with_pos():
+            if st_["k"] == "assign" and st_["rv"]["k"] == "cast" and st_["rv"].get("kind") == "IntToInt":
+                f_, t_ = st_["rv"]["from"], st_["rv"]["to"]
+                if f_ in order and t_ in order and order[t_] < order[f_]:
+                    narrow.append((b_.npath.split("::")[-1], f_, t_, st_["at"]))
+    R.ob("C10.4-no-narrowing-cast", "translator: no `as` cast that truncates an integer value", not narrow, narrow[0][3] if narrow else "", f"{narrow[:3]}" if narrow else "no narrowing IntToInt cast in syntax_to_semantics")
     # bit strings: the two accessors for the text between the quotes (`value`, used for the width, and `str`, used for
     # the literal's bits) compute the same slice through text_range_between_quotes(), which accepts both kinds of quote
     bv, bs_ = prog.body(TE + "BitString::value"), prog.body(TE + "BitString::str")
